@@ -1,1 +1,300 @@
-fn main() {}
+//! C03 correspondence harness: packet models (boundary-directed + random) through the real
+//! encoder (`wire_valid`, `required_size`, `try_encode_to_vec`, `try_encode` into a dirty
+//! buffer) and the real decoder; byte strings (encoder outputs, canonical mutations,
+//! malformed) through the real decoder and back through the encoder.  Results are written as
+//! Coq case files for `Sci.Wire.Cases_C03`.
+use std::panic::{catch_unwind, AssertUnwindSafe};
+
+use sciparse::address::host_addr::{ServiceAddr, WireHostAddr};
+use sciparse::checksum::ChecksumDigest;
+use sciparse::core::convert::TryFromView;
+use sciparse::core::encode::WireEncode;
+use sciparse::dataplane_path::model::DpPath;
+use sciparse::dataplane_path::onehop::model::OneHopPath;
+use sciparse::dataplane_path::standard::model::{HopField, InfoField, Segment, StandardPath};
+use sciparse::dataplane_path::standard::types::{HopFieldFlags, HopFieldMac, InfoFieldFlags};
+use sciparse::dataplane_path::types::PathType;
+use sciparse::header::model::{AddressHeader, CommonHeader, ScionPacketHeader};
+use sciparse::identifier::isd_asn::IsdAsn;
+use sciparse::packet::model::{ScionPacket, ScionRawPacket, ScionScmpPacket, ScionUdpPacket};
+use sciparse::payload::scmp::model::*;
+use sciparse::payload::scmp::types::{ScmpDestinationUnreachableCode, ScmpParameterProblemCode};
+use sciparse::payload::udp::model::UdpDatagram;
+use sciparse::payload::ProtocolNumber;
+use vcommon::*;
+
+// ---------------------------------------------------------------- Coq printers
+fn cbytes(b: &[u8]) -> String {
+    if b.len() > 24 { format!("(rle_expand {})", coq_rle(b)) } else { coq_bytes(b) }
+}
+fn chost(h: &WireHostAddr) -> String {
+    match h {
+        WireHostAddr::V4(a) => format!("(HA_V4 {})", coq_bytes(&a.octets())),
+        WireHostAddr::V6(a) => format!("(HA_V6 {})", coq_bytes(&a.octets())),
+        WireHostAddr::Svc(s) => format!("(HA_Svc {})", s.0),
+        WireHostAddr::Unknown { id, bytes } => format!("(HA_Unknown {} {})", id, coq_bytes(bytes)),
+    }
+}
+fn cinfo(i: &InfoField) -> String { format!("(mkIF {} {} {})", i.flags.bits(), i.segment_id, i.timestamp) }
+fn chop(h: &HopField) -> String {
+    format!("(mkHF {} {} {} {} {})", h.flags.bits(), h.expiration_units, h.cons_ingress, h.cons_egress, coq_bytes(&h.mac.0))
+}
+fn cpath(p: &DpPath) -> String {
+    match p {
+        DpPath::Standard(s) => format!("(DP_Std {} {} {})", s.current_info_field, s.current_hop_field,
+            coq_list(s.segments.iter().map(|g| format!("(mkSeg {} {})", cinfo(&g.info_field), coq_list(g.hop_fields.iter().map(chop)))))),
+        DpPath::OneHop(o) => format!("(DP_OneHop {} {} {})", cinfo(&o.info), chop(&o.hops[0]), chop(&o.hops[1])),
+        DpPath::Empty => "DP_Empty".into(),
+        DpPath::Unsupported { path_type, data } => format!("(DP_Unsupported {} {})", u8::from(*path_type), cbytes(data)),
+    }
+}
+fn cheader(h: &ScionPacketHeader) -> String {
+    format!("(mkH {} {} {} {} {} {} {} {})", h.common.traffic_class, h.common.flow_id, u8::from(h.common.next_header),
+        h.address.dst_ia.to_u64(), h.address.src_ia.to_u64(), chost(&h.address.dst_host_addr), chost(&h.address.src_host_addr), cpath(&h.path))
+}
+fn cscmp(m: &ScmpMessage) -> String {
+    use ScmpMessage as M;
+    match m {
+        M::DestinationUnreachable(x) => format!("(SM_DestUnreach {} {})", u8::from(x.code), cbytes(x.get_offending_packet())),
+        M::PacketTooBig(x) => format!("(SM_PktTooBig {} {})", x.mtu, cbytes(x.get_offending_packet())),
+        M::ParameterProblem(x) => format!("(SM_ParamProblem {} {} {})", u8::from(x.code), x.pointer, cbytes(x.get_offending_packet())),
+        M::ExternalInterfaceDown(x) => format!("(SM_ExtIfDown {} {} {})", x.isd_asn.to_u64(), x.interface_id, cbytes(x.get_offending_packet())),
+        M::InternalConnectivityDown(x) => format!("(SM_IntConnDown {} {} {} {})", x.isd_asn.to_u64(), x.ingress_interface_id, x.egress_interface_id, cbytes(x.get_offending_packet())),
+        M::EchoRequest(x) => format!("(SM_EchoReq {} {} {})", x.identifier, x.sequence_number, cbytes(&x.data)),
+        M::EchoReply(x) => format!("(SM_EchoRep {} {} {})", x.identifier, x.sequence_number, cbytes(&x.data)),
+        M::TracerouteRequest(x) => format!("(SM_TrReq {} {})", x.identifier, x.sequence_number),
+        M::TracerouteReply(x) => format!("(SM_TrRep {} {} {} {})", x.identifier, x.sequence_number, x.isd_asn.to_u64(), x.interface_id),
+        M::Unknown(x) => format!("(SM_Unknown {} {} {})", x.message_type, x.code, cbytes(&x.message_specific_data)),
+    }
+}
+
+#[derive(Clone)]
+enum Pl { Raw(Vec<u8>), Udp(UdpDatagram), Scmp(ScmpMessage) }
+#[derive(Clone)]
+struct Model { header: ScionPacketHeader, pl: Pl }
+impl Model {
+    fn kind(&self) -> u64 { match self.pl { Pl::Raw(_) => 0, Pl::Udp(_) => 1, Pl::Scmp(_) => 2 } }
+    fn coq(&self) -> String {
+        let p = match &self.pl {
+            Pl::Raw(b) => format!("(PL_Raw {})", cbytes(b)),
+            Pl::Udp(u) => format!("(PL_Udp {} {} {})", u.src_port, u.dst_port, cbytes(&u.payload)),
+            Pl::Scmp(m) => format!("(PL_Scmp {})", cscmp(m)),
+        };
+        format!("(mkP {} {})", cheader(&self.header), p)
+    }
+    /// a known number spelled through the catch-all variant of one of the tag enums
+    fn noncanon(&self) -> bool {
+        let h = &self.header;
+        let nh = matches!(h.common.next_header, ProtocolNumber::Other(k) if !matches!(ProtocolNumber::from(k), ProtocolNumber::Other(_)));
+        let pt = match &h.path {
+            DpPath::Unsupported { path_type, .. } => match path_type {
+                PathType::Other(k) => !matches!(PathType::from(*k), PathType::Other(_)),
+                PathType::Empty | PathType::Scion | PathType::OneHop => true,
+                _ => false },
+            _ => false };
+        let sc = match &self.pl {
+            Pl::Scmp(ScmpMessage::Unknown(u)) => !matches!(sciparse::payload::scmp::types::ScmpMessageType::from(u.message_type), sciparse::payload::scmp::types::ScmpMessageType::Unknown(_)),
+            Pl::Scmp(ScmpMessage::DestinationUnreachable(x)) => matches!(x.code, ScmpDestinationUnreachableCode::Unassigned(k) if !matches!(ScmpDestinationUnreachableCode::from(k), ScmpDestinationUnreachableCode::Unassigned(_))),
+            Pl::Scmp(ScmpMessage::ParameterProblem(x)) => matches!(x.code, ScmpParameterProblemCode::Unassigned(k) if !matches!(ScmpParameterProblemCode::from(k), ScmpParameterProblemCode::Unassigned(_))),
+            _ => false };
+        nh || pt || sc
+    }
+}
+
+enum Dres { Panic, Err, Ok(Model, usize) }
+impl Dres {
+    fn coq(&self) -> String { match self { Dres::Panic => "DPanic".into(), Dres::Err => "DErr".into(), Dres::Ok(m, r) => format!("(DOk {} {})", m.coq(), r) } }
+}
+fn decode(kind: u64, b: &[u8]) -> Dres {
+    let r = catch_unwind(AssertUnwindSafe(|| match kind {
+        0 => <ScionRawPacket as TryFromView>::try_from_slice(b).map(|(p, r)| (Model { header: p.header, pl: Pl::Raw(p.payload) }, r.len())).ok(),
+        1 => <ScionUdpPacket as TryFromView>::try_from_slice(b).map(|(p, r)| (Model { header: p.header, pl: Pl::Udp(p.payload) }, r.len())).ok(),
+        _ => <ScionScmpPacket as TryFromView>::try_from_slice(b).map(|(p, r)| (Model { header: p.header, pl: Pl::Scmp(p.payload) }, r.len())).ok(),
+    }));
+    match r { Err(_) => Dres::Panic, Ok(None) => Dres::Err, Ok(Some((m, r))) => Dres::Ok(m, r) }
+}
+
+struct Enc { valid: bool, size: usize, bytes: Option<Vec<u8>>, dirty_same: bool }
+fn encode_with<T: sciparse::payload::encode::PayloadEncode + Clone>(h: &ScionPacketHeader, p: &T) -> Enc {
+    let pkt = ScionPacket { header: h.clone(), payload: p.clone() };
+    let valid = pkt.wire_valid().is_ok();
+    let size = catch_unwind(AssertUnwindSafe(|| pkt.required_size())).unwrap_or(usize::MAX);
+    let bytes = catch_unwind(AssertUnwindSafe(|| pkt.try_encode_to_vec().ok())).unwrap_or(None);
+    let mut dirty_same = true;
+    if let Some(b) = &bytes {
+        let mut d = vec![0xffu8; b.len()];
+        let r = catch_unwind(AssertUnwindSafe(|| pkt.try_encode(&mut d).ok())).unwrap_or(None);
+        dirty_same = r == Some(b.len()) && &d == b;
+    }
+    Enc { valid, size, bytes, dirty_same }
+}
+fn encode(m: &Model) -> Enc {
+    match &m.pl { Pl::Raw(b) => encode_with(&m.header, b), Pl::Udp(u) => encode_with(&m.header, u), Pl::Scmp(s) => encode_with(&m.header, s) }
+}
+/// checksum of the L4 message recomputed by ChecksumDigest with the message placed at an ODD address
+fn csum_unaligned(m: &Model, bytes: &[u8]) -> u64 {
+    let hs = m.header.required_size();
+    let (proto, off) = match m.pl { Pl::Raw(_) => return 65536, Pl::Udp(_) => (17u8, 6usize), Pl::Scmp(_) => (202u8, 2usize) };
+    if bytes.len() < hs + off + 2 { return 65536; }
+    let mut msg = bytes[hs..].to_vec();
+    msg[off] = 0; msg[off + 1] = 0;
+    let mut store = vec![0u8; msg.len() + 2];
+    let o = if (store.as_ptr() as usize) % 2 == 0 { 1 } else { 0 };
+    store[o..o + msg.len()].copy_from_slice(&msg);
+    let s = &store[o..o + msg.len()];
+    assert!(s.as_ptr() as usize % 2 == 1);
+    ChecksumDigest::with_pseudoheader(&m.header.address, proto, s).add_slice(s).checksum() as u64
+}
+
+// ---------------------------------------------------------------- generators
+fn ia(rng: &mut Rng) -> IsdAsn { IsdAsn::from_u64(*rng.pick(&[0u64, 1, 0x0001_ff00_0000_0110, 0xffff_ffff_ffff_ffff, 0x0123_4567_89ab_cdef, 0x8000_0000_0000_0001])) }
+fn host(rng: &mut Rng, hostile: bool) -> WireHostAddr {
+    match rng.below(if hostile { 9 } else { 6 }) {
+        0 | 1 => WireHostAddr::V4(std::net::Ipv4Addr::new(10, rng.below(256) as u8, 0, 255)),
+        2 => WireHostAddr::V6(std::net::Ipv6Addr::new(0x2001, 0xdb8, 0, 0, 0xffff, 0, rng.below(65536) as u16, 1)),
+        3 => WireHostAddr::Svc(ServiceAddr(*rng.pick(&[1u16, 2, 0x10, 0x8002, 0xffff]))),
+        4 | 5 => { let len = *rng.pick(&[4usize, 8, 12, 16]); let id = *rng.pick(&[0u8, 1, 2, 3]);
+              let (id, len) = if !hostile && ((id == 0 && (len == 4 || len == 16)) || (id == 1 && len == 4)) { (2, len) } else { (id, len) };
+              WireHostAddr::Unknown { id, bytes: (0..len).map(|i| 0xa0 + i as u8).collect() } }
+        6 => WireHostAddr::Unknown { id: *rng.pick(&[0u8, 0, 1, 4, 5, 64, 255]), bytes: (0..*rng.pick(&[4usize, 16, 8])).map(|i| i as u8).collect() },
+        7 => WireHostAddr::Unknown { id: 2, bytes: (0..*rng.pick(&[0usize, 1, 3, 5, 7, 13])).map(|i| i as u8).collect() },
+        _ => WireHostAddr::Unknown { id: 0, bytes: [9u8, 9, 9, 9].into_iter().collect() },
+    }
+}
+fn hopf(rng: &mut Rng, i: usize) -> HopField {
+    HopField { flags: HopFieldFlags::from_bits_retain(rng.below(4) as u8), expiration_units: *rng.pick(&[0u8, 63, 255]), cons_ingress: i as u16,
+        cons_egress: *rng.pick(&[0u16, 1, 65535]), mac: HopFieldMac([1, 2, 3, 4, 5, i as u8]) }
+}
+fn infof(rng: &mut Rng) -> InfoField {
+    InfoField { flags: InfoFieldFlags::from_bits_retain(*rng.pick(&[0u8, 1, 2, 3, 0x80])), segment_id: rng.below(65536) as u16, timestamp: *rng.pick(&[0u32, 1, 0x6500_0000, u32::MAX]) }
+}
+fn std_path(rng: &mut Rng, shape: &[usize], ci: u8, ch: u8) -> DpPath {
+    let mut p = StandardPath::new_empty();
+    p.current_info_field = ci; p.current_hop_field = ch;
+    let mut k = 0;
+    for &n in shape { let mut s = Segment::default(); s.info_field = infof(rng); for _ in 0..n { s.hop_fields.push(hopf(rng, k)); k += 1; } p.segments.push(s); }
+    DpPath::Standard(p)
+}
+fn path(rng: &mut Rng, hostile: bool) -> DpPath {
+    match rng.below(if hostile { 12 } else { 8 }) {
+        0 => DpPath::Empty,
+        1 => DpPath::OneHop(OneHopPath { info: infof(rng), hops: [hopf(rng, 0), hopf(rng, 1)] }),
+        2 | 3 | 4 => { let shape: Vec<usize> = match rng.below(6) { 0 => vec![1], 1 => vec![2, 3], 2 => vec![3, 2, 4], 3 => vec![63], 4 => vec![1, 1, 1], _ => vec![30, 20, 13] };
+            let total: usize = shape.iter().sum(); let ch = *rng.pick(&[0usize, total - 1, total / 2]).min(&63); let ci = rng.below(shape.len() as u64) as u8;
+            std_path(rng, &shape, ci, ch as u8) }
+        5 => { let n = *rng.pick(&[0usize, 4, 8, 400, 984]); DpPath::Unsupported { path_type: *rng.pick(&[PathType::Epic, PathType::Colibri, PathType::Other(77), PathType::Other(255)]), data: vec![0x5a; n] } }
+        6 => std_path(rng, &[40, 24], 1, 63),
+        7 => std_path(rng, &[63, 1], 0, 63),
+        // hostile: unrepresentable or invalid structures
+        8 => { let shape: &[usize] = *rng.pick(&[&[63usize, 12][..], &[40, 30, 5], &[64], &[63, 16, 1], &[0], &[2, 0], &[]]);
+               let total: usize = shape.iter().sum(); let ch = *rng.pick(&[0usize, 63, 64, 70, total.saturating_sub(1), total]); std_path(rng, shape, *rng.pick(&[0u8, 1, 2, 3, 4]), ch as u8) }
+        9 => DpPath::Unsupported { path_type: *rng.pick(&[PathType::Other(3), PathType::Scion, PathType::Empty, PathType::OneHop, PathType::Other(1)]), data: vec![1; *rng.pick(&[0usize, 4, 32, 36])] },
+        10 => DpPath::Unsupported { path_type: PathType::Other(99), data: vec![1; *rng.pick(&[1usize, 2, 985, 988, 1000])] },
+        _ => std_path(rng, &[63, 16], 0, *rng.pick(&[6u8, 70, 78])),
+    }
+}
+fn data(rng: &mut Rng, n: usize) -> Vec<u8> { let a = rng.below(256) as u8; let mut v = vec![a; n]; if n > 0 { v[0] = 0x42; let l = n - 1; v[l] = v[l].wrapping_add(1); } v }
+fn payload(rng: &mut Rng, kind: u64, hostile: bool) -> Pl {
+    let sizes: &[usize] = if hostile { &[0, 1, 65526, 65527, 65528, 65529, 65535, 65536, 65537, 131072] } else { &[0, 1, 2, 3, 7, 8, 64, 1200, 1500, 9000, 65000] };
+    match kind {
+        0 => Pl::Raw(data(rng, *rng.pick(sizes))),
+        1 => Pl::Udp(UdpDatagram::new(*rng.pick(&[0u16, 53, 30041, 65535]), *rng.pick(&[0u16, 443, 65535]), data(rng, *rng.pick(sizes)))),
+        _ => { let q = |rng: &mut Rng| data(rng, *rng.pick(&[0usize, 1, 40, 1100, 1180, 1200, 1232, 2000]));
+            Pl::Scmp(match rng.below(if hostile { 12 } else { 10 }) {
+                0 => ScmpDestinationUnreachable::new((rng.below(8) as u8).into(), q(rng)).into(),
+                1 => ScmpPacketTooBig::new(*rng.pick(&[0u16, 1280, 65535]), q(rng)).into(),
+                2 => ScmpParameterProblem::new((*rng.pick(&[0u8, 1, 16, 53, 66, 200])).into(), rng.below(65536) as u16, q(rng)).into(),
+                3 => ScmpExternalInterfaceDown::new(ia(rng), *rng.pick(&[0u16, 7, 65535]), q(rng)).into(),
+                4 => ScmpInternalConnectivityDown::new(ia(rng), 1, *rng.pick(&[2u16, 65535]), q(rng)).into(),
+                5 => ScmpEchoRequest::new(rng.below(65536) as u16, 7, data(rng, *rng.pick(&[0usize, 1, 9, 1500]))).into(),
+                6 => ScmpEchoReply::new(1, rng.below(65536) as u16, data(rng, *rng.pick(&[0usize, 3, 64]))).into(),
+                7 => ScmpTracerouteRequest::new(3, 4).into(),
+                8 => ScmpTracerouteReply::new(5, 6, ia(rng), *rng.pick(&[0u16, 9, 65535])).into(),
+                9 => ScmpMessage::Unknown(ScmpMessageUnknown::new(*rng.pick(&[0u8, 3, 7, 100, 127, 132, 200, 255]), rng.below(256) as u8, data(rng, *rng.pick(&[0usize, 4, 33])))),
+                10 => ScmpMessage::Unknown(ScmpMessageUnknown::new(*rng.pick(&[1u8, 128, 130, 5]), 0, data(rng, *rng.pick(&[0usize, 16, 24])))),
+                _ => ScmpEchoRequest::new(1, 1, data(rng, *rng.pick(&[65527usize, 65528, 70000]))).into(),
+            }) }
+    }
+}
+fn model(rng: &mut Rng, hostile: bool) -> Model {
+    let kind = rng.below(3);
+    let nh = match kind { 1 => ProtocolNumber::Udp, 2 => ProtocolNumber::Scmp,
+        _ => if hostile && rng.chance(1, 3) { ProtocolNumber::Other(*rng.pick(&[17u8, 202, 6])) } else { *rng.pick(&[ProtocolNumber::Tcp, ProtocolNumber::Other(0), ProtocolNumber::Other(255), ProtocolNumber::Bfd, ProtocolNumber::Hbh]) } };
+    let flow = if hostile && rng.chance(1, 4) { *rng.pick(&[0x10_0000u32, u32::MAX]) } else { *rng.pick(&[0u32, 1, 0xf_ffff, 0xabcde]) };
+    let h = ScionPacketHeader {
+        common: CommonHeader { traffic_class: *rng.pick(&[0u8, 1, 0xb8, 255]), flow_id: flow, next_header: nh },
+        address: AddressHeader { dst_ia: ia(rng), src_ia: ia(rng), dst_host_addr: host(rng, hostile && rng.chance(1, 3)), src_host_addr: host(rng, hostile && rng.chance(1, 3)) },
+        path: path(rng, hostile && rng.chance(1, 2)),
+    };
+    Model { header: h, pl: payload(rng, kind, hostile && rng.chance(1, 3)) }
+}
+
+fn human_model(m: &Model) -> String {
+    let pl = match &m.pl { Pl::Raw(b) => format!("raw{}B", b.len()), Pl::Udp(u) => format!("udp{}B", u.payload.len()),
+        Pl::Scmp(s) => format!("scmp:{}", cscmp(s).chars().take(40).collect::<String>()) };
+    format!("dst={:?} src={:?} path={} nh={} flow={:#x} {}", m.header.address.dst_host_addr, m.header.address.src_host_addr,
+        cpath(&m.header.path).chars().take(60).collect::<String>(), u8::from(m.header.common.next_header), m.header.common.flow_id, pl)
+}
+
+fn main() {
+    silence_panics();
+    let out = arg("--out").expect("--out dir");
+    let n: usize = arg("--n").and_then(|s| s.parse().ok()).unwrap_or(300);
+    let mut rng = Rng::new(seed_from_env());
+    let pre = "From Sci Require Import Wire.Cases_C03. Open Scope N_scope.";
+    let mut sh = Shards::new(&out, pre, "c3case", "verdicts", 20);
+    let mut sum = Summary::default();
+    let mut seen = std::collections::HashSet::new();
+    let mut pool: Vec<(u64, Vec<u8>)> = vec![];
+    let n_enc = n * 2 / 3;
+    let mut push = |sh: &mut Shards, sum: &mut Summary, case: String, human: String, nontrivial: bool| {
+        if seen.insert(case.clone()) && nontrivial { sum.count("distinct_nontrivial"); }
+        if sum.samples.len() < 3 && nontrivial { sum.samples.push(human.clone()); }
+        sum.index.push(human); sh.push(case);
+    };
+    for i in 0..n_enc {
+        let hostile = i % 3 == 2;
+        let m = model(&mut rng, hostile);
+        let e = encode(&m);
+        let kind = m.kind();
+        let (dec, un) = match &e.bytes { Some(b) => (decode(kind, b), csum_unaligned(&m, b)), None => (Dres::Err, 65536) };
+        sum.count(if hostile { "enc.hostile" } else { "enc.valid_shaped" });
+        sum.count(if e.valid { "enc.accepted" } else { "enc.rejected" });
+        sum.count(&format!("enc.kind{kind}"));
+        if let Some(b) = &e.bytes { sum.add("enc.bytes", b.len() as u64); if pool.len() < 4000 && b.len() < 3000 { pool.push((kind, b.clone())); } }
+        let case = format!("CE {} {} {} {} {} {} {} {} {}", kind, m.coq(), coq_bool(m.noncanon()), coq_bool(e.valid), if e.size == usize::MAX { 0 } else { e.size },
+            e.bytes.as_ref().map(|b| coq_rle(b)).unwrap_or("[]".into()), dec.coq(), coq_bool(e.dirty_same), un);
+        let human = format!("enc {} valid={} size={} noncanon={} dirty_same={} :: {}", if hostile { "hostile" } else { "shaped" }, e.valid, e.size, m.noncanon(), e.dirty_same, human_model(&m));
+        push(&mut sh, &mut sum, case, human, e.valid);
+    }
+    // decoder stream
+    for i in n_enc..n {
+        let (kind, mut b) = if pool.is_empty() || i % 7 == 0 { (rng.below(3), (0..rng.below(80)).map(|_| rng.below(256) as u8).collect::<Vec<u8>>()) } else { pool[rng.below(pool.len() as u64) as usize].clone() };
+        let mode = rng.below(10);
+        let kind = if mode == 9 { rng.below(3) } else { kind };
+        let hl = if b.len() > 5 { (b[5] as usize) * 4 } else { 0 };
+        match mode {
+            0 | 1 => {}                                                         // canonical as encoded
+            2 => { if b.len() > 11 { b[10 + rng.below(2) as usize] ^= 1 << rng.below(8); } }        // reserved bits of the common header
+            3 => { b.push(rng.below(256) as u8); }                                   // trailing byte
+            4 => { let k = rng.below(b.len() as u64 + 1) as usize; b.truncate(k); }  // truncation
+            5 => { if b.len() > 7 { let pl = u16::from_be_bytes([b[6], b[7]]); let v = pl.wrapping_add(*rng.pick(&[1u16, 0xffff, 8])); b[6..8].copy_from_slice(&v.to_be_bytes()); } }
+            6 => { if b.len() > hl + 8 && hl > 0 { let j = hl + rng.below(8) as usize; b[j] ^= 1 << rng.below(8); } }    // L4 header bit flip
+            7 => { if b.len() > 30 { let j = rng.below(b.len().min(hl.max(12)) as u64) as usize; b[j] ^= 1 << rng.below(8); } }   // header bit flip
+            8 => { if b.len() > 9 { b[9] = rng.below(256) as u8; } }                 // address nibbles
+            _ => {}
+        }
+        let d = decode(kind, &b);
+        let (reok, re) = match &d { Dres::Ok(m, _) => { let e = encode(m); (e.bytes.is_some(), e.bytes.unwrap_or_default()) } _ => (false, vec![]) };
+        sum.count(&format!("dec.mode{mode}"));
+        sum.count(match &d { Dres::Ok(..) => "dec.ok", Dres::Err => "dec.err", Dres::Panic => "dec.panic" });
+        let case = format!("CD {} {} {} {} {}", kind, coq_rle(&b), d.coq(), coq_bool(reok), coq_rle(&re));
+        let human = format!("dec kind={} mode={} len={} result={} hex={}", kind, mode, b.len(), match &d { Dres::Ok(_, r) => format!("ok(rest={r})"), Dres::Err => "err".into(), Dres::Panic => "panic".into() },
+            b.iter().take(64).map(|x| format!("{x:02x}")).collect::<String>());
+        let nt = matches!(d, Dres::Ok(..));
+        push(&mut sh, &mut sum, case, human, nt);
+    }
+    sh.flush();
+    let distinct = *sum.dist.get("distinct_nontrivial").unwrap_or(&0) as usize;
+    sum.write(&out, sh.total, distinct);
+}
